@@ -74,9 +74,12 @@ def run(ctx):
                 "int and datetime stamps; distinct = (fn, a, o, da, do, swap, newest)")
     ctx.assumptions += ["positions are binary angles of 360/2^24 degree; observed floats are projected onto the CPR lattice "
                         "with tolerance 1e-4 lattice units by the harness (vlib/enc.py pos)"]
-    states = cprgen.run_model(ctx, "air", "C03 airborne global decode")
-    ctx.extra["model_cases"] = len(states)
-    ctx.check_events(vectors(ctx, states), case_of=case_of)
+    ctx.extra["model_cases"] = 0
+    for phase in cprgen.phases(ctx):
+        states = cprgen.run_model(ctx, "air", "C03 airborne global decode" + " (anchor shard %d/4)" % phase, phase)
+        ctx.extra["model_cases"] += len(states)
+        ctx.check_events(vectors(ctx, states), case_of=case_of)
+        del states
 
 
 replay = c01.replay
